@@ -457,7 +457,8 @@ type Contract struct {
 	Reveal   []string
 	File     string
 	Line     int
-	Params   []string // for iface/extern: parameter names
+	Params   []string // for iface/extern: parameter names; for func: the contract's names for the parameters, by position
+	FreeVars []string // for closures: the contract's names for the captured variables, by position
 }
 
 func (c *Contract) ByKind(k string) []*Clause {
@@ -496,7 +497,7 @@ var keywords = map[string]bool{
 	"func": true, "iface": true, "extern": true, "pure": true, "ghost": true, "props": true,
 	"requires": true, "domain": true, "ensures": true, "check": true, "hint": true, "onpanic": true, "panics": true, "returns": true, "modifies": true,
 	"assume": true, "invariant": true, "let": true, "loop": true, "nopanic": true,
-	"trusted": true, "inline": true, "nonblocking": true, "merge": true, "reveal": true, "rely": true, "guarantee": true, "unroll": true, "params": true, "noverify": true,
+	"trusted": true, "inline": true, "nonblocking": true, "merge": true, "reveal": true, "rely": true, "guarantee": true, "unroll": true, "params": true, "freevars": true, "noverify": true,
 }
 
 func firstWord(s string) string {
@@ -613,6 +614,8 @@ func ParseSpecText(text, path, pkgPath string) (*SpecFile, error) {
 			cur.NoVerify = true
 		case "params":
 			cur.Params = strings.FieldsFunc(rest, func(r rune) bool { return r == ' ' || r == ',' })
+		case "freevars":
+			cur.FreeVars = strings.FieldsFunc(rest, func(r rune) bool { return r == ' ' || r == ',' })
 		case "let":
 			i := strings.Index(rest, "=")
 			if i < 0 {
